@@ -26,6 +26,45 @@ Proof.
     + now apply Hc.
 Qed.
 
+(* the same for the attributes protected by Table.CheckAttributeDefinition (defs_ok): the keys of the table and of its
+   indexes keep their declared type *)
+Lemma set_defs_protected old0 prot new : forall cur,
+  forallb (fun kv => match lookup (fst kv) old0 with
+                     | Some ty => negb (mem_str (fst kv) prot) || str_eqb ty (snd kv)
+                     | None => true end) new = true ->
+  (forall n, mem_str n prot = true -> mem n old0 = true -> lookup n cur = lookup n old0) ->
+  forall n, mem_str n prot = true -> mem n old0 = true -> lookup n (set_defs cur new) = lookup n old0.
+Proof.
+  induction new as [|[k ty] new IH]; intros cur Hs Hc n Hp Hn; cbn.
+  - now apply Hc.
+  - cbn in Hs. apply andb_true_iff in Hs as [H1 H2].
+    unfold set_defs in *. cbn. apply IH; auto.
+    intros n' Hp' Hn'. rewrite lookup_insert. destruct (str_eqb n' k) eqn:E.
+    + apply str_eqb_eq in E; subst n'. cbn in H1.
+      unfold mem in Hn'. destruct (lookup k old0) as [ty0|] eqn:L; [|discriminate].
+      rewrite Hp' in H1. cbn in H1. apply str_eqb_eq in H1. now subst.
+    + now apply Hc.
+Qed.
+
+Lemma used_key_attrs_index t n ix :
+  In (n, ix) (t_indexes t) ->
+  mem_str (hashk (ix_ks ix)) (used_key_attrs t) = true /\ mem_str (rangek (ix_ks ix)) (used_key_attrs t) = true.
+Proof.
+  intros Hin. unfold used_key_attrs. split; apply mem_str_In; right; right; apply in_flat_map; exists (n, ix); split; auto; cbn; auto.
+Qed.
+
+Lemma used_key_attrs_table t :
+  mem_str (hashk (t_ks t)) (used_key_attrs t) = true /\ mem_str (rangek (t_ks t)) (used_key_attrs t) = true.
+Proof. unfold used_key_attrs. split; apply mem_str_In; cbn; auto. Qed.
+
+Lemma defs_ok_protected t defs a :
+  defs_ok t defs = true -> mem_str a (used_key_attrs t) = true -> mem a (t_defs t) = true ->
+  def_type (set_defs (t_defs t) defs) a = def_type (t_defs t) a.
+Proof.
+  intros Hok Hu Hm. unfold def_type.
+  rewrite (set_defs_protected (t_defs t) (used_key_attrs t) defs (t_defs t)); auto.
+Qed.
+
 Lemma get_key_defs_agree ks defs defs' it :
   def_type defs' (hashk ks) = def_type defs (hashk ks) ->
   (rangek ks = [] \/ def_type defs' (rangek ks) = def_type defs (rangek ks)) ->
@@ -69,20 +108,24 @@ Variable lang_match : str -> item -> item -> fmap str -> outcome bool.
 Variable lang_update : str -> item -> item -> fmap str -> outcome item.
 Variable flavour : sdk.
 
-Definition EX (t : table) (defs : list (str * str)) : Prop := defs_stable (t_defs t) defs = true.
 Definition UAny (c : ictx) (t : table) (k : item) (e : str) (names : fmap str) (vals : item) : Prop := True.
 
+Lemma run_env_UAny ops : forall w, run_env UAny lang_match lang_update flavour w ops.
+Proof.
+  induction ops as [|o ops IH]; intros w; cbn; auto. split; auto.
+  destruct (snd o); cbn; auto. intros; exact I.
+Qed.
+
 Theorem XInv_reachable ops cn tn c t :
-  run_env EX UAny lang_match lang_update flavour [] ops ->
   lookup cn (fst (run lang_match lang_update flavour [] ops)) = Some c ->
   lookup tn (c_tables c) = Some t -> XInv t.
 Proof.
-  apply (P_reachable XInv EX UAny lang_match lang_update flavour).
+  apply (P_reachable XInv UAny lang_match lang_update flavour); [| | | | | | | | |apply run_env_UAny].
   - apply XInv_put.
   - intros c0 t0 k e cond names vals H _. now apply XInv_update.
   - apply XInv_delete_op.
   - intros t0. apply XInv_clear.
-  - intros n h r defs. split; [split; cbn; [apply wf_nil|reflexivity]|]. intros n0 ix [].
+  - intros n oh orr h r defs _. split; [split; cbn; [apply wf_nil|reflexivity]|]. intros n0 ix [].
   - intros t0 ppr d t'. apply XInv_add_global_index.
   - (* a local index on an empty table *)
     intros t0 d t' [HT HI] Hd Ea. unfold add_local_index in Ea.
@@ -98,19 +141,22 @@ Proof.
       destruct (id_range d) as [[|c1 rk]|]; inversion C; subst; auto.
       destruct (mem (c1 :: rk) (t_defs t0)) eqn:M2; inversion C; subst; auto.
   - (* attribute definitions change compatibly *)
-    intros t0 defs [HT HI] Hs. unfold EX in Hs. split; [exact HT|].
+    intros t0 defs [HT HI] Hs. split; [exact HT|].
     cbn [t_indexes t_defs t_data]. intros n ix Hin.
     destruct (HI n ix Hin) as [H1 [D1 D2]].
-    assert (forall a, mem a (t_defs t0) = true -> lookup a (set_defs (t_defs t0) defs) = lookup a (t_defs t0)) as Hl.
-    { intros a Ha. apply (set_defs_stable (t_defs t0) defs (t_defs t0)); auto. }
-    assert (forall a, mem a (t_defs t0) = true -> def_type (set_defs (t_defs t0) defs) a = def_type (t_defs t0) a) as Hd.
-    { intros a Ha. unfold def_type. now rewrite Hl. }
+    destruct (used_key_attrs_index t0 n ix Hin) as [U1 U2].
+    assert (forall a, mem_str a (used_key_attrs t0) = true -> mem a (t_defs t0) = true ->
+                      lookup a (set_defs (t_defs t0) defs) = lookup a (t_defs t0)) as Hl.
+    { intros a Hu Ha. apply (set_defs_protected (t_defs t0) (used_key_attrs t0) defs (t_defs t0)); auto. }
+    assert (forall a, mem_str a (used_key_attrs t0) = true -> mem a (t_defs t0) = true ->
+                      def_type (set_defs (t_defs t0) defs) a = def_type (t_defs t0) a) as Hd.
+    { intros a Hu Ha. unfold def_type. now rewrite Hl. }
     split.
     + apply (IInv_defs_agree (t_defs t0)); auto. intros it. apply get_key_defs_agree; auto.
       destruct D2 as [D2|D2]; auto.
     + split.
-      * unfold mem. rewrite Hl by exact D1. exact D1.
-      * destruct D2 as [D2|D2]; auto. right. unfold mem. rewrite Hl by exact D2. exact D2.
+      * unfold mem. rewrite Hl by auto. exact D1.
+      * destruct D2 as [D2|D2]; auto. right. unfold mem. rewrite Hl by auto. exact D2.
   - intros t0 n [HT HI]. split; [exact HT|]. cbn [with_indexes t_indexes t_defs t_data].
     intros n0 ix Hin. apply In_remove_entry in Hin. now apply (HI n0 ix).
 Qed.
